@@ -15,7 +15,7 @@ package mdiff
 //@ ghost field Chunk.cl imap[int]
 //@ ghost field Chunk.cr imap[int]
 //@
-//@ pred chunkOK(c *Chunk, L []string, R []string) := c != nil && allocated(c) && 1 <= c.LStart && 1 <= c.RStart && len(c.Edits) > 0
+//@ pred chunkOK(c *Chunk, L []string, R []string) := c != nil && allocated(c) && 1 <= c.LStart && 1 <= c.RStart && len(c.Edits) > 0 && c.LStart <= c.LEnd && c.RStart <= c.REnd
 //@+     && c.cl[0] == c.LStart && c.cr[0] == c.RStart && c.cl[len(c.Edits)] == c.LEnd && c.cr[len(c.Edits)] == c.REnd
 //@+     && (forall k int :: {c.Edits[k]} 0 <= k && k < len(c.Edits) ==> c.Edits[k].Op != slice.OpEmit && editOK(c.Edits[k], L, R, slice.equal, c.cl[k] - 1, c.cr[k] - 1, c.cl[k + 1] - 1, c.cr[k + 1] - 1))
 //@
@@ -24,9 +24,31 @@ package mdiff
 //@+     && (len(c.Edits) == 0 <==> c.LEnd == c.LStart && c.REnd == c.RStart)
 //@+     && (forall k int :: {c.Edits[k]} 0 <= k && k < len(c.Edits) ==> c.Edits[k].Op != slice.OpEmit && editOK(c.Edits[k], L, R, slice.equal, c.cl[k] - 1, c.cr[k] - 1, c.cl[k + 1] - 1, c.cr[k + 1] - 1))
 //@
+// After AddContext a chunk's edits are no longer spans of the script: the context edits hold copies of lines. chunkDesc
+// is the content-level description C13 states: with ghost line positions cl[k], cr[k] (1-based) before the k-th edit,
+// every edit's X (resp. Y) equals, line by line, the lines of Left (resp. Right) at its position, an Emit edit's lines
+// being the same on both sides, the positions advance by what the edit consumes and produces, and the chunk runs
+// from (LStart, RStart) to (LEnd, REnd).
+//@ spec consumes(e Edit) int := ite(e.Op == slice.OpCopy, 0, len(e.X))
+//@ spec produces(e Edit) int := ite(e.Op == slice.OpDrop, 0, ite(e.Op == slice.OpEmit, len(e.X), len(e.Y)))
+//@ pred editDesc(e Edit, L []string, R []string, l int, r int) := (e.Op == slice.OpDrop || e.Op == slice.OpCopy || e.Op == slice.OpReplace || e.Op == slice.OpEmit) && 0 <= l && 0 <= r
+//@+     && (e.Op != slice.OpCopy ==> l + len(e.X) <= len(L) && (forall j int :: {e.X[j]} 0 <= j && j < len(e.X) ==> streq(e.X[j], L[l + j])))
+//@+     && (e.Op == slice.OpCopy || e.Op == slice.OpReplace ==> r + len(e.Y) <= len(R) && (forall j int :: {e.Y[j]} 0 <= j && j < len(e.Y) ==> streq(e.Y[j], R[r + j])))
+//@+     && (e.Op == slice.OpEmit ==> r + len(e.X) <= len(R) && (forall j int :: {e.X[j]} 0 <= j && j < len(e.X) ==> streq(e.X[j], R[r + j])))
+//@ pred chunkDesc(c *Chunk, L []string, R []string) := c != nil && allocated(c) && 1 <= c.LStart && 1 <= c.RStart && c.LStart <= c.LEnd && c.RStart <= c.REnd && c.LEnd <= len(L) + 1 && c.REnd <= len(R) + 1
+//@+     && c.cl[0] == c.LStart && c.cr[0] == c.RStart && c.cl[len(c.Edits)] == c.LEnd && c.cr[len(c.Edits)] == c.REnd
+//@+     && (forall k int :: {c.Edits[k]} 0 <= k && k < len(c.Edits) ==> editDesc(c.Edits[k], L, R, c.cl[k] - 1, c.cr[k] - 1) && c.cl[k + 1] == c.cl[k] + consumes(c.Edits[k]) && c.cr[k + 1] == c.cr[k] + produces(c.Edits[k]))
+//@
+//@ pred sameChunk(c *Chunk) := c.LStart == old(c.LStart) && c.RStart == old(c.RStart) && c.LEnd == old(c.LEnd) && c.REnd == old(c.REnd) && c.Edits == old(c.Edits) && c.cl == old(c.cl) && c.cr == old(c.cr)
+//@ pred owns(d *Diff) := (forall j int :: {d.Chunks[j]} 0 <= j && j < len(d.Chunks) ==> len(d.Chunks[j].Edits) > 0 && d.Chunks[j].Edits.base != d.Edits.base)
+//@+     && (forall a int, b int :: {d.Chunks[a], d.Chunks[b]} 0 <= a && a < b && b < len(d.Chunks) ==> d.Chunks[a] != d.Chunks[b] && d.Chunks[a].Edits.base != d.Chunks[b].Edits.base)
+//@ pred ctxOK(c *Chunk, n int) := old(c.LStart) - ite(n > 0, n, 0) <= c.LStart && c.LStart <= old(c.LStart) && old(c.LStart) - c.LStart == old(c.RStart) - c.RStart && old(c.LEnd) <= c.LEnd && c.LEnd <= old(c.LEnd) + ite(n > 0, n, 0) && c.LEnd - old(c.LEnd) == c.REnd - old(c.REnd)
+//@
 //@ func New
 //@   ensures [C13] diff: result != nil && fresh(result) && result.Left == lhs && result.Right == rhs
 //@   ensures [C13] chunks: forall j int :: {result.Chunks[j]} 0 <= j && j < len(result.Chunks) ==> chunkOK(result.Chunks[j], lhs, rhs)
+//@   ensures [C13] described: forall j int :: {result.Chunks[j]} 0 <= j && j < len(result.Chunks) ==> chunkDesc(result.Chunks[j], lhs, rhs)
+//@   ensures [C13] owns: owns(result)
 //@   ensures [C13] ordered: forall a int, b int :: {result.Chunks[a], result.Chunks[b]} 0 <= a && b == a + 1 && b < len(result.Chunks) ==> result.Chunks[a].LEnd <= result.Chunks[b].LStart && result.Chunks[a].REnd <= result.Chunks[b].RStart
 //@   at after "es := slice.EditScript(lhs, rhs)": ghost lp = EditScript_lp
 //@   at after "es := slice.EditScript(lhs, rhs)": ghost rp = EditScript_rp
@@ -49,3 +71,40 @@ package mdiff
 //@   at after "out = append(out, cur)": assert [C13] forall j int :: {out[j]} 0 <= j && j < len(out) - 1 ==> chunkOK(out[j], lhs, rhs)
 //@   at after "cur.RStart, cur.REnd = rcur, rcur": assert [C13] forall j int :: {out[j]} 0 <= j && j < len(out) - 1 ==> chunkOK(out[j], lhs, rhs)
 //@   at after "cur.RStart, cur.REnd = rcur, rcur": assert [C13] partial(cur, lhs, rhs) && len(cur.Edits) == 0 && cur == out[len(out) - 1]
+//@
+// findContext: up to n lines before the chunk that are the same on both sides (walking backwards, then reversed), and
+// up to n lines after it. The lines are copies (appended one by one), not spans of Left.
+//@ func (*Diff).findContext
+//@   requires [C13] n >= 0 && d != nil && c != nil && 1 <= c.LStart && c.LStart <= c.LEnd && c.LEnd <= len(d.Left) + 1 && 1 <= c.RStart && c.RStart <= c.REnd && c.REnd <= len(d.Right) + 1
+//@   ensures  [C13] preLen: len(result.0) <= n && len(result.0) <= c.LStart - 1 && len(result.0) <= c.RStart - 1 && (len(result.0) > 0 ==> fresh(result.0))
+//@   ensures  [C13] pre: forall j int :: {result.0[j]} 0 <= j && j < len(result.0) ==> streq(result.0[j], d.Left[c.LStart - 1 - len(result.0) + j]) && streq(result.0[j], d.Right[c.RStart - 1 - len(result.0) + j])
+//@   ensures  [C13] postLen: len(result.1) <= n && c.LEnd - 1 + len(result.1) <= len(d.Left) && c.REnd - 1 + len(result.1) <= len(d.Right) && (len(result.1) > 0 ==> fresh(result.1))
+//@   ensures  [C13] post: forall j int :: {result.1[j]} 0 <= j && j < len(result.1) ==> streq(result.1[j], d.Left[c.LEnd - 1 + j]) && streq(result.1[j], d.Right[c.REnd - 1 + j])
+//@   ensures  [C13] mem: old_arrays_unchanged(result.0) && old_arrays_unchanged(result.1)
+//@   loop 1: invariant [C13] len: 0 <= i && len(pre) == i && i <= n && i <= lcur && i <= rcur && (len(pre) == 0 ==> cap(pre) == 0) && (len(pre) > 0 ==> fresh(pre)) && old_arrays_unchanged(pre)
+//@   loop 1: invariant [C13] lines: forall j int :: {pre[j]} 0 <= j && j < len(pre) ==> streq(pre[j], d.Left[lcur - 1 - j]) && streq(pre[j], d.Right[rcur - 1 - j])
+//@   loop 2: invariant [C13] len: 0 <= i && len(post) == i && i <= n && lend + i <= len(d.Left) && rend + i <= len(d.Right) && (len(post) == 0 ==> cap(post) == 0) && (len(post) > 0 ==> fresh(post)) && old_arrays_unchanged(post) && (len(pre) > 0 ==> post.base != pre.base)
+//@   loop 2: invariant [C13] lines: forall j int :: {post[j]} 0 <= j && j < len(post) ==> streq(post[j], d.Left[lend + j]) && streq(post[j], d.Right[rend + j])
+//@
+// AddContext: every chunk gets up to n lines of context in front (one Emit edit prepended, the positions of the other
+// edits shift by one) and behind (one Emit edit appended); the description chunkDesc is kept, both ranges grow by
+// the same number of lines at each end, at most n, and nothing but the chunks is written (Left, Right and the script
+// in Edits are untouched).
+//@ func (*Diff).AddContext
+//@   requires [C13] d != nil && owns(d)
+//@   requires [C13] described: forall j int :: {d.Chunks[j]} 0 <= j && j < len(d.Chunks) ==> chunkDesc(d.Chunks[j], d.Left, d.Right)
+//@   ensures  [C13] same: result == d && d.Left == old(d.Left) && d.Right == old(d.Right) && d.Chunks == old(d.Chunks) && d.Edits == old(d.Edits) && unchanged(elems(d.Chunks)) && unchanged(elems(d.Edits)) && old_arrays_unchanged(d.Left)
+//@   ensures  [C13] owns: owns(d)
+//@   ensures  [C13] described: forall j int :: {d.Chunks[j]} 0 <= j && j < len(d.Chunks) ==> chunkDesc(d.Chunks[j], d.Left, d.Right)
+//@   ensures  [C13] context: forall j int :: {d.Chunks[j]} 0 <= j && j < len(d.Chunks) ==> ctxOK(d.Chunks[j], n)
+//@   modifies every(backing(d.Chunks[0].Edits)), every(d.Chunks[0].Edits), every(d.Chunks[0].LStart), every(d.Chunks[0].RStart), every(d.Chunks[0].LEnd), every(d.Chunks[0].REnd), every(d.Chunks[0].cl), every(d.Chunks[0].cr)
+//@   loop 1: invariant [C13] same: d.Left == old(d.Left) && d.Right == old(d.Right) && d.Chunks == old(d.Chunks) && d.Edits == old(d.Edits) && unchanged(elems(d.Chunks)) && unchanged(elems(d.Edits)) && old_arrays_unchanged(d.Left) && n > 0
+//@   loop 1: invariant [C13] owns: owns(d)
+//@   loop 1: invariant [C13] done: forall j int :: {d.Chunks[j]} 0 <= j && j < it1 ==> chunkDesc(d.Chunks[j], d.Left, d.Right) && ctxOK(d.Chunks[j], n)
+//@   loop 1: invariant [C13] todo: forall j int :: {d.Chunks[j]} it1 <= j && j < len(d.Chunks) ==> chunkDesc(d.Chunks[j], d.Left, d.Right) && sameChunk(d.Chunks[j]) && unchanged(elems(d.Chunks[j].Edits))
+//@   at loop 1 head: ghost cl0 = c.cl
+//@   at loop 1 head: ghost cr0 = c.cr
+//@   at after "c.RStart -= len(pre)": ghost c.cl = lambda k int :: ite(k == 0, c.LStart, cl0[k - 1])
+//@   at after "c.RStart -= len(pre)": ghost c.cr = lambda k int :: ite(k == 0, c.RStart, cr0[k - 1])
+//@   at after "c.REnd += len(post)": ghost c.cl = upd(c.cl, len(c.Edits), c.LEnd)
+//@   at after "c.REnd += len(post)": ghost c.cr = upd(c.cr, len(c.Edits), c.REnd)
